@@ -324,15 +324,26 @@ def race_reports(stderr):
                 frames = re.findall(r"^\s+(\S+)\(\)\s*$", part, re.M)
                 sides.append(_frame_class(frames))
         sides = sorted(s for s in sides[:2])
+        if "bytecode.Context.fetchArgValue" in sides:     # whatever wrote the pointee: the same unsynchronized read
+            sides = ["bytecode.Context.fetchArgValue", "pointee-write"]
         if any(sides):
             out.append(("~".join(s or "other" for s in sides), blk.strip()[:6000]))
     return out
 
 
+_STARTUP = re.compile(r"SQL logic error|database is locked|already exists")     # ego's own start-up (profile database)
 _FATAL = re.compile(r"^(fatal error: .*|panic: .*|unexpected fault address.*)$", re.M)
 
 
 # --------------------------------------------------------------------------- stages
+
+def _build(sd, ov):
+    """the real ego binary, -race -tags verif (vf.build_ego with a time limit that survives a saturated machine)"""
+    out = os.path.join(sd, "ego-race")
+    if not os.path.exists(out):
+        vf.go_build(ov, ".", out, tags="verif", race=True, timeout=5400)
+    return out
+
 
 def _cases(recs):
     seen, out = set(), []
@@ -375,8 +386,11 @@ def _judge_R(chk, runs, stats):
         if rc is None:
             stats["late"].append((b, procs, yld))
             continue
-        stats["procs"] += 1
         obs, other = observe(so, 1, len(b))
+        if rc not in (0, 66) and not any(o["out"] or o["ended"] for o in obs) and _STARTUP.search(so + se):
+            stats["late"].append((b, procs, yld))       # the process never reached the program: run it again
+            continue
+        stats["procs"] += 1
         fatal = _FATAL.search(se) if rc not in (0, 66) else None
         races = race_reports(se)
         for sig, text in races:
@@ -388,6 +402,7 @@ def _judge_R(chk, runs, stats):
             chk.violation("fatal/%s/%s" % (form, re.sub(r"[^A-Za-z ]+", "", fatal.group(1))[:40].strip().replace(" ", "-")),
                           "the interpreter died with a Go runtime error while a fully synchronized %s program runs: %s"
                           % (form, fatal.group(1)), {"mode": "R", "cases": b, "stderr": se[-3000:], **ctx})
+        first = True
         for c, o in zip(b, obs):
             stats["run"] += 1
             stats["vals"] += len(c["out"]) + 1
@@ -395,7 +410,8 @@ def _judge_R(chk, runs, stats):
                 continue
             if fatal:
                 continue        # already reported; the cases after the crash did not run
-            stats["suspects"].append((c, procs, yld, o, rc, se[-600:], other[:4]))
+            stats["suspects"].append((c, procs, yld, o, rc, se[-600:], other[:4], first))
+            first = False
 
 
 def _trace_stage(chk, ego, env, sd, sel, tag, timeout):
@@ -468,7 +484,7 @@ def _replay(chk, ego, env, sd):
     files = [(cases, rep.get("gomaxprocs", 4), rep.get("yield") or "%d:40" % (k + 1)) for k in range(8)]
     runs = _run_R(ego, env, sd, files, "rp", 900)
     _judge_R(chk, runs, stats)
-    for c, procs, yld, o, rc, se, other in stats["suspects"]:
+    for c, procs, yld, o, rc, se, other, _first in stats["suspects"]:
         print("expected:", c["out"], " observed:", o, "rc", rc, other, se[-300:])
         chk.violation("out/" + _cls(c), "replayed case still differs from the specification", rep)
     for b, procs, yld, (rc, so, se), p in runs:
@@ -497,24 +513,29 @@ def run():
         env = vf.ego_env(sd)
         env["EGO_PATH"] = vf.REPO
         if os.environ.get("VERIF_REPLAY"):
-            return _replay(chk, vf.build_ego(sd, ov, race=True), env, sd)
+            return _replay(chk, _build(sd, ov), env, sd)
         nsim = 160 if thorough else 40
-        with ThreadPoolExecutor(max_workers=8) as ex:
-            f_bin = ex.submit(vf.build_ego, sd, ov, True)
+        with ThreadPoolExecutor(max_workers=5) as ex:
+            f_bin = ex.submit(_build, sd, ov)
             f_mc = ex.submit(vf.tlc, SPEC, "SharedTables", "SharedTables_MC.cfg" if thorough else "SharedTables_MCq.cfg", sd,
-                             workers=6 if thorough else 3, timeout=5400 if thorough else 1500)
-            negs = [(nm, inv, ex.submit(vf.tlc, SPEC, "SharedTables", cfg, sd, workers=2, timeout=1500))
+                             workers=6 if thorough else 3, timeout=5400 if thorough else 3600)
+            f_mc2 = ex.submit(vf.tlc, SPEC, "SharedTables", "SharedTables_MC2.cfg", sd, workers=4, timeout=5400) if thorough else None
+            negs = [(nm, inv, ex.submit(vf.tlc, SPEC, "SharedTables", cfg, sd, workers=2, timeout=3600))
                     for nm, cfg, inv in [x for x in (("BUG-94: the child marks after the fork", "SharedTables_MC_late.cfg", ("I2",)),
                                          ("BUG-94, torn unlock", "SharedTables_MC_late2.cfg" if thorough else None, ("NoTornUnlock",)),
                                          ("Shared() without the parent crawl", "SharedTables_MC_noanc.cfg", ("I2",)),
                                          ("goroutine.go as it is: function-valued arguments", "SharedTables_MC_codeargs.cfg", ("I1",))) if x[1]]]
             f_gen = ex.submit(vf.tlc, SPEC, "ConcProg_Gen", "ConcProg_Gen.cfg" if thorough else "ConcProg_Genq.cfg", sd,
-                              workers=6 if thorough else 3, timeout=5400 if thorough else 1500)
-            f_nl = ex.submit(vf.tlc, SPEC, "ConcProg", "ConcProg_MC_nolock.cfg", sd, workers=1, timeout=900)
+                              workers=6 if thorough else 3, timeout=5400 if thorough else 3600)
+            f_nl = ex.submit(vf.tlc, SPEC, "ConcProg", "ConcProg_MC_nolock.cfg", sd, workers=1, timeout=3600)
             f_sim = ex.submit(vf.tlc, SPEC, "ConcProg_Gen", "ConcProg_GenS.cfg", sd, workers=1, simulate="num=%d" % nsim,
                               depth=20000, seed=vf.SEED, timeout=3000)
             r = vf.tlc_ok(f_mc.result(), "SharedTables (fixed)")
-            chk.add_tlc(r, "sharing protocol as demanded: I1 I2 NoTornUnlock ReachClosed FlagsGrow, exhaustive")
+            chk.add_tlc(r, "sharing protocol as demanded: I1 I2 NoTornUnlock ReachClosed FlagsGrow, exhaustive (%s)"
+                        % ("3 goroutines, 2 new tables" if thorough else "2 goroutines, 2 new tables"))
+            if f_mc2:
+                r2 = vf.tlc_ok(f_mc2.result(), "SharedTables (fixed, deeper tree)")
+                chk.add_tlc(r2, "sharing protocol as demanded, exhaustive (2 goroutines, 3 new tables)")
             for nm, inv, f in negs:
                 rn = f.result()
                 if rn.violated not in inv:
@@ -569,15 +590,19 @@ def run():
         for form in sorted(byform):
             cs = byform[form]
             for j in range(0, len(cs), per):
-                combos = [(p_, y) for p_ in PROCS for y in ((25, 120) if thorough else (40,))] if thorough else [None]
+                combos = [(p_, (25, 120)[(j // per + n_) % 2]) for n_, p_ in enumerate(PROCS)] if thorough else [None]
                 for combo in combos:
                     k += 1
                     procs, rate = combo if combo else (PROCS[k % 4], (15, 40, 120)[k % 3])
                     files.append((cs[j:j + per], procs, "%d:%d" % (vf.SEED * 1000 + k, rate)))
-        bigsel = big if thorough else rng.sample(big, min(len(big), 12))
+        bigsel = rng.sample(big, min(len(big), 120 if thorough else 12))
         for j, c in enumerate(bigsel):
             files.append(([c], PROCS[j % 4], "%d:%d" % (vf.SEED * 1000 + 500 + j, (10, 60)[j % 2])))
         stats = {"late": [], "procs": 0, "run": 0, "vals": 0, "suspects": []}
+        # one process alone first: ego creates its profile database at the first start
+        wb, _wp, _wy, (wrc, wso, wse), _wpath = _run_R(ego, env, sd, [([cases[0]], 2, "")], "w", 1200)[0]
+        if wrc != 0 or not agree(cases[0], observe(wso, 1, 1)[0][0]):
+            raise vf.NoVerdict("the warm-up program did not run (rc=%s): %s %s" % (wrc, wso[-300:], wse[-600:]))
         runs = _run_R(ego, env, sd, files, "r", 600)
         _judge_R(chk, runs, stats)
         if stats["late"]:       # an overloaded machine, not a verdict: once more with fewer processes side by side
@@ -587,31 +612,45 @@ def run():
             if stats["late"]:
                 raise vf.NoVerdict("%d generated programs did not finish within 2400 s" % len(stats["late"]))
             runs += again
-        # a case that differs inside a shared process is run alone before it is blamed
-        alone = stats["suspects"][:60]
+        # a case that did not print what TLC computed: run it alone, twice, under the same settings.  In a process that
+        # stopped early only the first such case ran at all; the ones after it are run again but not blamed.
+        alone = [(c, procs, yld, o, rc, se, other, first or bool(o["out"] or o["ended"]))
+                 for c, procs, yld, o, rc, se, other, first in stats["suspects"]][:60]
         stats["suspects"] = []
         if alone:
-            sruns = _run_R(ego, env, sd, [([c], procs, yld) for c, procs, yld, o, rc, se, other in alone], "s", 900)
-            for (c, procs, yld, o, rc, se, other), (b, _p, _y, (rc2, so2, se2), path) in zip(alone, sruns):
-                if rc2 is None:
-                    raise vf.NoVerdict("a generated program did not finish within 900 s: " + c["id"])
-                o2 = observe(so2, 1, 1)[0][0]
-                fatal = _FATAL.search(se2) if rc2 not in (0, 66) else None
-                if agree(c, o2):
-                    chk.violation("interference/" + _cls(c),
-                                  "a case prints what the specification says when run alone but not after other cases in the same "
-                                  "process: %s printed %s (expected %s) %s" % (c["id"], o["out"], c["out"], " ".join(other)[:200]),
+            sruns = _run_R(ego, env, sd, [([c], a[1], a[2]) for a in alone for c in (a[0], a[0])], "s", 1200)
+            for n, (c, procs, yld, o, rc, se, other, started) in enumerate(alone):
+                again = []
+                for b, _p, _y, (rc2, so2, se2), path in sruns[2 * n:2 * n + 2]:
+                    if rc2 is None:
+                        raise vf.NoVerdict("a generated program did not finish within 1200 s: " + c["id"])
+                    again.append((observe(so2, 1, 1)[0][0], rc2, se2))
+                    for sig, text in race_reports(se2):
+                        chk.violation("race/%s/%s" % (c["form"], sig),
+                                      "the Go race detector reports an unsynchronized access inside the interpreter (%s) while the "
+                                      "fully synchronized program %s runs" % (sig, c["id"]),
+                                      {"mode": "R", "cases": [c], "report": text, "gomaxprocs": procs, "yield": yld})
+                worst = next(((o2, rc2, se2) for o2, rc2, se2 in again if not agree(c, o2)), None)
+                if worst:
+                    o2, rc2, se2 = worst
+                    fatal = _FATAL.search(se2) if rc2 not in (0, 66) else None
+                    if fatal:
+                        chk.violation("fatal/%s/%s" % (c["form"], re.sub(r"[^A-Za-z ]+", "", fatal.group(1))[:40].strip().replace(" ", "-")),
+                                      "the interpreter died with a Go runtime error while the fully synchronized program %s runs: %s"
+                                      % (c["id"], fatal.group(1)), {"mode": "R", "cases": [c], "gomaxprocs": procs, "yield": yld, "stderr": se2[-3000:]})
+                    else:
+                        chk.violation("out/" + _cls(c),
+                                      "program %s (GOMAXPROCS=%s, yield %s): the specification (and Go) print %s, the real interpreter "
+                                      "printed %s%s %s" % (c["id"], procs, yld, c["out"], o2["out"], "" if o2["ended"] else " and did not finish",
+                                                           se2.strip()[-200:]),
+                                      {"mode": "R", "cases": [c], "gomaxprocs": procs, "yield": yld, "observed": o2, "program": render([c])})
+                elif started:
+                    chk.violation("out-once/" + _cls(c),
+                                  "program %s (GOMAXPROCS=%s, yield %s) printed %s%s in a process it shared with other programs (the "
+                                  "specification and Go print %s; alone it printed that twice) %s %s"
+                                  % (c["id"], procs, yld, o["out"], "" if o["ended"] else " and did not finish", c["out"],
+                                     " ".join(other)[:200], se.strip()[-200:]),
                                   {"mode": "R", "cases": [c], "gomaxprocs": procs, "yield": yld, "first_run": o, "stderr": se})
-                elif fatal:
-                    chk.violation("fatal/%s/%s" % (c["form"], re.sub(r"[^A-Za-z ]+", "", fatal.group(1))[:40].strip().replace(" ", "-")),
-                                  "the interpreter died with a Go runtime error while the fully synchronized program %s runs: %s"
-                                  % (c["id"], fatal.group(1)), {"mode": "R", "cases": [c], "gomaxprocs": procs, "yield": yld, "stderr": se2[-3000:]})
-                else:
-                    chk.violation("out/" + _cls(c),
-                                  "program %s (GOMAXPROCS=%s, yield %s): the specification (and Go) print %s, the real interpreter "
-                                  "printed %s%s %s" % (c["id"], procs, yld, c["out"], o2["out"], "" if o2["ended"] else " and did not finish",
-                                                       se2.strip()[-200:]),
-                                  {"mode": "R", "cases": [c], "gomaxprocs": procs, "yield": yld, "observed": o2, "program": render([c])})
         vf.log("C08: R stage done: %d processes, %d candidate violations" % (stats["procs"], len(chk.cands)))
         # 5. T
         tsel, seen = [], set()
@@ -624,7 +663,7 @@ def run():
                 tsel.append(c)
         if thorough:
             tsel += rng.sample(big, min(len(big), 20))
-        evs, bad, loose, raw, used = _trace_stage(chk, ego, env, sd, tsel, "t", 900)
+        evs, bad, loose, raw, used = _trace_stage(chk, ego, env, sd, tsel, "t", 2400)
         _trace_violations(chk, bad)
         vf.log("C08: T stage done: %d programs, %d events, %d offending" % (len(used), len(evs), len(bad)))
         # 6. binding self-tests
